@@ -5,7 +5,10 @@ from pyparsing import *
 
 def _grammar():
   from pyparsing import pyparsing_common
-  number = pyparsing_common.number
+  # As pyparsing_common.number (int for plain digits, float otherwise), but a numeral must end at white space,
+  # a bracket or a comma: '0.3.2' is not the two numbers 0.3 and .2
+  number = Regex(r"[+-]?(?:\d+\.?\d*|\.\d+)(?:[eE][+-]?\d+)?(?![.\w])").setName("number")
+  number.setParseAction(lambda t: int(t[0]) if t[0].lstrip("+-").isdigit() else float(t[0]))
   identifier = Combine(pyparsing_common.identifier+ZeroOrMore(Literal(".")+pyparsing_common.identifier))
 
   # multi_range
